@@ -504,6 +504,18 @@ def synthetic_variant(rng: random.Random) -> dict:
     }
 
 
+def failing_sibling_of_synthetic(rng: random.Random) -> dict:
+    """a -> f (fails terminally) next to a -> p (parent with a synthetic before / after child) -> z: when the
+    failure's chain and CompleteWorkflow overtake StartStage(p), p and its child start in a workflow that is
+    already final and have to be wound down from there."""
+    p = st("p", ["a"], [dict(OK, out=["p_o"])], type="vs")
+    p["before"] = [{"t": [{"kind": rng.choice(["ok", "ok", "poll"]), "n": 1, "out": ["ch_o"]}]}]
+    if rng.random() < 0.5:
+        p["after"] = [{"t": [{"kind": "ok", "out": ["ch_a"]}]}]
+    f = st("f", ["a"], [{"kind": rng.choice(["term", "term", "stop", "cancel"])}])
+    return {"name": "fail_next_to_synthetic", "confluent": False, "stages": [st("a"), f, p, st("z", ["p"])]}
+
+
 def jump_limit(max_jumps: int | None = None, level: str = "wf", shape: str = "loop", times: int = 10**6) -> dict:
     """A task that keeps asking to jump; the limit must end it."""
     if shape == "self":
